@@ -43,3 +43,19 @@ Example C08_min_long_reached :
   murmur3_long [223; 231; 111; 82; 2; 63; 173; 76; 130; 184; 97; 194; 198; 92; 122; 107] = - 2 ^ 63 /\
   murmur3_token [223; 231; 111; 82; 2; 63; 173; 76; 130; 184; 97; 194; 198; 92; 122; 107] = 2 ^ 63 - 1.
 Proof. split; vm_compute; reflexivity. Qed.
+
+(* ------------------------------------------------------------------ the C extension (cassandra/cmurmur3.c), which
+   Murmur3Token.hash_fn uses whenever it is built.  Model/Murmur3C.v transcribes the C code with C integer semantics
+   (int64_t wrap-around, signed char tail bytes); it is tied to the extension compiled from the working tree by
+   correspondence on the key corpus (checks/C08.py, checks/C07.py).  For EVERY key it yields Cassandra's hash, hence
+   Cassandra's token after the same MIN_LONG normalisation. *)
+Require Verif.Model.Murmur3C Verif.Proofs.C07_proofs.
+
+Theorem C08_c_extension_hash : forall key, Murmur3C.murmur3_c key = murmur3_long key.
+Proof. exact C07_proofs.murmur3_c_correct. Qed.
+Print Assumptions C08_c_extension_hash.
+
+Theorem C08_c_extension_token : forall key,
+  (if Murmur3C.murmur3_c key =? - 2 ^ 63 then 2 ^ 63 - 1 else Murmur3C.murmur3_c key) = murmur3_token key.
+Proof. intros key. rewrite C07_proofs.murmur3_c_correct. reflexivity. Qed.
+Print Assumptions C08_c_extension_token.
